@@ -22,22 +22,14 @@ NEVER = 7                       # never occurs in any generated array
 POOLS = ([0, 1, 2, 3, 5], [0, 1, 2, 3, 5], [-1, 0, 1, 2, -3])
 U32 = numpy.uint32
 
-# collapsed() with a REPEATED value in the precedence list deviates from "first listed value present, else the last listed"
-# on the repaired tree (notes/iindex-harness.md, candidate finding).  Such lists are generated only once the lead has
-# registered the finding under this signature in known_findings.json (status known -> KNOWN-FINDING, fixed -> must pass).
-SIG_REPEATED_PREC = "collapsed:repeated-precedence-value"
+# collapsed() with a REPEATED value in the precedence list: inside C06's quantifier ("any precedence list"), lead's
+# decision; genuine defect F23 of the tree before its repair.  Every failure of a collapsed step whose precedence list
+# has a repeated value is reported under this signature.
+SIG_REPEATED_PREC = "collapsed:repeated-precedence"
 
 
-_REPEATED = []
-
-
-def repeated_prec_enabled():
-    if not _REPEATED:
-        try:
-            _REPEATED.append(any(k.get("signature") == SIG_REPEATED_PREC for k in core.load_known()))
-        except Exception:  # noqa
-            _REPEATED.append(False)
-    return _REPEATED[0]
+def has_repeats(prec):
+    return len(set(prec)) < len(prec)
 
 
 ERR = {"TypeError": "ETypeError", "ValueError": "EValueError", "KeyError": "EKeyError",
@@ -375,11 +367,26 @@ def gen_op(rng, impl, idx, a, vals):
         return {"op": "reindexed", "mapping": m, "copy": rng.random() < 0.7, "shift": rng.random() < 0.8}
     if name == "collapsed":
         prec = rng.sample(pool + [-5], rng.randint(1, 4))
-        if repeated_prec_enabled() and rng.random() < 0.15:
-            prec.insert(rng.randrange(len(prec) + 1), rng.choice(prec))
         m = None
         if rng.random() < 0.2:
             m = [[k, rng.choice(vals + [9])] for k in rng.sample(pool, rng.randint(1, 3))]
+        if rng.random() < 0.35:
+            # repeated values (F23): the last value again earlier in the list, the (mapped) common value twice,
+            # a value repeated to the right of the common value, any value anywhere; one or two repeats
+            mc = dict((k, v) for k, v in m).get(common, common) if m else common
+            for _ in range(rng.choice([1, 1, 2])):
+                kind = rng.choice(["last-earlier", "common-twice", "right-of-common", "any"])
+                if kind == "last-earlier":
+                    prec.insert(rng.randrange(len(prec)), prec[-1])
+                elif kind == "common-twice":
+                    if mc not in prec:
+                        prec.insert(rng.randrange(len(prec) + 1), mc)
+                    prec.insert(rng.randrange(len(prec) + 1), mc)
+                elif kind == "right-of-common" and mc in prec and prec.index(mc) < len(prec) - 1:
+                    j = prec.index(mc)
+                    prec.insert(rng.randrange(j + 1, len(prec) + 1), rng.choice(prec[j + 1:]))
+                else:
+                    prec.insert(rng.randrange(len(prec) + 1), rng.choice(prec))
         return {"op": "collapsed", "prec": prec, "mapping": m}
     if name == "copy":
         return {"op": "copy"}
@@ -690,19 +697,25 @@ def run_step(impl, idx, a, op):
     # ---- direct oracles ----
     if st.raised or st.expect_raise:
         if st.raised != st.expect_raise:
-            st.problems.append(("C06", "%s:%s" % (name, "raised-" + st.raised if st.raised else "did-not-raise"),
+            sig = "%s:%s" % (name, "raised-" + st.raised if st.raised else "did-not-raise")
+            if name == "collapsed" and has_repeats(op["prec"]):
+                sig = SIG_REPEATED_PREC
+            st.problems.append(("C06", sig,
                                 "%s %s" % (name, getattr(st, "raise_text", "returned instead of raising " + str(st.expect_raise)))))
         st.after = None
         st.result = idx
         # an exception must leave receiver and operands as they were
         if snap(idx) != recv_snap:
             st.problems.append(("C06", "%s:receiver-changed-by-failed-call" % name, "receiver differs after the exception"))
+            w = py_wf(idx)
+            if w:
+                st.problems.append(("C07", "%s:illformed-after-exception" % name, "receiver after the failed call: " + w))
         return st
     st.after = spec_of(result)
     got = densify(st.after) if sane_for_densify(st.after) else None
     if st.expect is not None:
         if got is None or got.shape != st.expect.shape or not (got == st.expect).all():
-            sig = SIG_REPEATED_PREC if (name == "collapsed" and len(set(op["prec"])) < len(op["prec"])) else "%s:dense-mismatch" % name
+            sig = SIG_REPEATED_PREC if (name == "collapsed" and has_repeats(op["prec"])) else "%s:dense-mismatch" % name
             st.problems.append(("C06", sig, "dense content %r (shape %r), NumPy gives %r (shape %r)" % (
                 None if got is None else got.tolist(), tuple(st.after["shape"]), st.expect.tolist(), st.expect.shape)))
         elif len(result.shape) <= 2:
@@ -842,10 +855,17 @@ class History:
 def run_history(impl, rng, max_steps, dims3=False, with_eq=True, own=None, pool=None):
     h = History()
     h.final = None
-    h.init = gen_init(rng, impl, dims3)
     h.steps = []
     h.eqcases = []
     h.problems = []        # (step index, property, signature, text)
+    try:
+        h.init = gen_init(rng, impl, dims3)
+    except Exception as e:  # noqa  (from_array raised on a plain small integer array: only a broken implementation gets here)
+        import traceback
+        h.init = {"array": [], "shape": [0], "via": "construction failed", "spec": {"entries": [], "common": 0, "shape": [0]}, "vals": []}
+        h.problems.append((-1, own or "C07", "init:construction-raised", "building the initial index raised %s: %s  %s" % (
+            type(e).__name__, str(e)[:160], traceback.format_exc()[-500:])))
+        return h
     idx = build(impl, h.init["spec"])
     a = numpy.array(h.init["array"], dtype=int).reshape(h.init["shape"])
     vals = h.init["vals"]
@@ -877,10 +897,13 @@ def run_history(impl, rng, max_steps, dims3=False, with_eq=True, own=None, pool=
         if st.problems and (st.after is None or not sane_for_densify(st.after)):
             break
         idx = st.result
-        if st.expect is not None:
+        if st.expect is not None and not any(p[0] == "C06" for p in st.problems):
             a = st.expect
         else:
-            a = densify(st.after)          # entry-wise operations: specified on the entries themselves
+            # entry-wise operations are specified on the entries themselves; and after a step that C06's oracle objected
+            # to, the history goes on from the REAL state (one divergence never masks the next, and C07/C15 are not
+            # blamed for it: the twins below are built from the real dense content)
+            a = densify(st.after)
         ps = []
         if with_eq and not st.tainted:
             # the twin comparison is made even when another oracle already objected to this step
@@ -1354,6 +1377,13 @@ def run_check(ctx, prop):
         rep = {"history": hj, "failing_step": i, "observed": text,
                "count_of_this_signature": sum(1 for x in mine if x[3] == sig),
                "how": "build init.spec with iindex(...), apply ops in order; NumPy on the dense array is the oracle"}
+        others, kinds = [], {text[:40]}
+        for (hn2, i2, p2, sig2, text2) in mine:
+            if sig2 == sig and i2 >= 0 and text2[:40] not in kinds and len(others) < 2:
+                kinds.add(text2[:40])
+                others.append({"observed": text2[:400], "one_step": one_step_repro(hists[hn2].steps[i2])})
+        if others:
+            rep["other_kinds_of_failure_with_this_signature"] = others
         if i >= 0:
             try:
                 shj, ok_h = shrink_history(impl, hj, prop, sig)
